@@ -317,6 +317,17 @@ func scenariosC15() []pscenario {
 			{at: 3 * time.Second, kind: "state", part: 7, to: ring.PartitionActive, want: ring.ErrPartitionDoesNotExist},
 			{at: 4 * time.Second, kind: "lc-state", who: "i1", part: 1, to: ring.PartitionActive},
 			{at: 5 * time.Second, kind: "lock", part: 1}, {at: 6 * time.Second, kind: "lc-state", who: "i1", part: 1, to: ring.PartitionInactive, want: ring.ErrPartitionStateChangeLocked}}, horizon: 9 * time.Second},
+		// requests whose target is not one of pending / active / inactive (the admin page and the API take any value):
+		// refused from every state, nothing written
+		{name: "editor-odd-targets", seed: activeP1, lcs: []plcSpec{{id: "i1", partition: 1, waitOwners: 1}}, actions: []paction{
+			{at: 1 * time.Second, kind: "state", part: 1, to: ring.PartitionDeleted, want: ring.ErrPartitionStateChangeNotAllowed},
+			{at: 2 * time.Second, kind: "lc-state", who: "i1", part: 1, to: ring.PartitionUnknown, want: ring.ErrPartitionStateChangeNotAllowed},
+			{at: 3 * time.Second, kind: "state", part: 1, to: ring.PartitionInactive},
+			{at: 4 * time.Second, kind: "state", part: 1, to: ring.PartitionState(9), want: ring.ErrPartitionStateChangeNotAllowed},
+			{at: 5 * time.Second, kind: "lc-state", who: "i1", part: 1, to: ring.PartitionDeleted, want: ring.ErrPartitionStateChangeNotAllowed}}, horizon: 8 * time.Second},
+		{name: "pending-odd-targets", lcs: []plcSpec{{id: "i1", partition: 1, waitOwners: 1}}, actions: []paction{
+			{at: 2 * time.Second, kind: "state", part: 1, to: ring.PartitionDeleted, want: ring.ErrPartitionStateChangeNotAllowed},
+			{at: 3 * time.Second, kind: "state", part: 1, to: ring.PartitionUnknown, want: ring.ErrPartitionStateChangeNotAllowed}}, horizon: 8 * time.Second},
 		{name: "delete-orphan-partition", seed: inactiveOrphan, lcs: []plcSpec{{id: "i1", partition: 1, waitOwners: 1}}, horizon: 28 * time.Second},
 		// an operator re-activates the orphan at the very moment another lifecycler's reconciliation is about to delete it
 		{name: "delete-orphan-vs-reactivation", seed: inactiveOrphan, lcs: []plcSpec{{id: "i1", partition: 1, waitOwners: 1}}, actions: []paction{{at: 25 * time.Second, kind: "state", part: 2, to: ring.PartitionActive}}, horizon: 32 * time.Second},
